@@ -60,6 +60,13 @@ inductive CStep (f : Fn) : CState → CState → Prop
   | branchFall (c : CState) (i : BInstr) (off : Int) (x : Cell) (rest : List Cell) :
       f.code[c.pc]? = some i → eff i = .branch off → c.data = x :: rest →
       CStep f c { c with pc := c.pc + 1, data := rest }
+  /-- `TailGuardInstr`: the name no longer denotes the running function -/
+  | guardTaken (c : CState) (i : BInstr) (off : Int) (t : Nat) :
+      f.code[c.pc]? = some i → eff i = .guard off → target c.pc off f.code.length = some t →
+      CStep f c { c with pc := t }
+  | guardFall (c : CState) (i : BInstr) (off : Int) :
+      f.code[c.pc]? = some i → eff i = .guard off →
+      CStep f c { c with pc := c.pc + 1 }
   | scopeUp (c : CState) (i : BInstr) :
       f.code[c.pc]? = some i → eff i = .scopeUp →
       CStep f c { c with pc := c.pc + 1, sc := c.sc + 1 }
